@@ -73,10 +73,35 @@ type config struct {
 	bs      int // -1 = exact size of two records (resolved per sequence)
 	flushes uint // bit i: flush after record i
 	mode    int
+	// refuse = j+1: the writer refuses (0 bytes, error) the first write of the explicit flush after record j,
+	// once; the caller retries the flush and carries on. 0 = the writer never fails.
+	refuse int
 }
 
 func (c config) String() string {
-	return fmt.Sprintf("codec=%s blocksize=%d flushmask=%b reader=%s", c.comp, c.bs, c.flushes, filedrv.ModeName(c.mode))
+	s := fmt.Sprintf("codec=%s blocksize=%d flushmask=%b reader=%s", c.comp, c.bs, c.flushes, filedrv.ModeName(c.mode))
+	if c.refuse > 0 {
+		s += fmt.Sprintf(" first-write-of-flush-after-record-%d-refused-once-then-retried", c.refuse-1)
+	}
+	return s
+}
+
+var errRefused = fmt.Errorf("writer not ready (nothing consumed)")
+
+// armWriter is a bytes.Buffer that, when armed, refuses exactly one write without consuming anything.
+type armWriter struct {
+	bytes.Buffer
+	armed bool
+	fired int
+}
+
+func (w *armWriter) Write(p []byte) (int, error) {
+	if w.armed {
+		w.armed = false
+		w.fired++
+		return 0, errRefused
+	}
+	return w.Buffer.Write(p)
 }
 
 type enc interface {
@@ -208,7 +233,7 @@ func runOne(c *fw.Ctx, w which, pc probeCase, vals []reflect.Value, cfg config) 
 	for i, v := range vals {
 		recs[i] = mkRecord(pc, v)
 	}
-	var buf bytes.Buffer
+	var buf armWriter
 	var encErr error
 	stage := "encode"
 	if c.Guard(locusT+"|"+stage, desc, detail, func() {
@@ -244,6 +269,13 @@ func runOne(c *fw.Ctx, w which, pc probeCase, vals []reflect.Value, cfg config) 
 				return
 			}
 			if cfg.flushes&(1<<uint(i)) != 0 {
+				if cfg.refuse == i+1 {
+					// the writer turns this flush's first write away once; the error is C16's business, what
+					// matters here is that a retried flush still delivers the pending records
+					buf.armed = true
+					e.Flush()
+					buf.armed = false
+				}
 				if err := e.Flush(); err != nil {
 					encErr = fmt.Errorf("Flush: %w", err)
 					return
@@ -293,12 +325,25 @@ func innermost(e *univ.Expr) string {
 }
 
 func checkC01(c *fw.Ctx, pc probeCase, recs []reflect.Value, cfg config, out []byte, desc string, detail map[string]interface{}, chain, tagc string) {
-	for _, ptr := range []bool{false, true} {
-		res := filedrv.Read(out, cfg.mode, pc.probe.Type, ptr, -1, nil)
+	for pass := 0; pass < 3; pass++ {
+		ptr := pass >= 1
+		var res filedrv.Result
 		target := "T"
-		if ptr {
+		switch pass {
+		case 0:
+			res = filedrv.Read(out, cfg.mode, pc.probe.Type, false, -1, nil)
+		case 1:
+			res = filedrv.Read(out, cfg.mode, pc.probe.Type, true, -1, nil)
 			target = "*T"
+		default:
+			// the caller's own *T, already used for a read of the same file that was abandoned at the last record
+			if len(recs) < 2 {
+				continue
+			}
+			res = filedrv.ReadReusing(out, cfg.mode, pc.probe.Type, len(recs)-1)
+			target = "a *T reused after an abandoned read"
 		}
+		_ = ptr
 		locusT := innermost(pc.probe.Expr) + "|" + tagc
 		if res.Panic != nil {
 			c.Violation("panic:"+fw.PanicClass(res.Panic)+"@"+res.Site+"|read|"+locusT, fmt.Sprintf("ReadFile into %s panicked: %v — %s", target, res.Panic, desc), detail)
@@ -554,6 +599,17 @@ func runProbe(c *fw.Ctx, w which, idx int, pc probeCase) {
 			}
 		}
 	}
+	// (B') a writer that is not ready once: the first write of one explicit flush is refused without consuming
+	// anything, the flush is retried, the history carries on; the file must come out as if nothing had happened
+	for _, a := range reps {
+		for _, b := range reps {
+			for _, d := range reps {
+				for j := 1; j <= 3; j++ {
+					runOne(c, w, pc, []reflect.Value{a, b, d}, config{comp: comps[(n+j)%len(comps)], bs: 65536, flushes: 7, mode: mode(), refuse: j})
+				}
+			}
+		}
+	}
 	// (C) blocks and records larger than the reader's 64 KiB read-ahead chunk (only for the plain string / bytes leaves)
 	if pc.depth == 0 && (pc.probe.Expr.Op == "string" || pc.probe.Expr.Op == "[]byte") {
 		mkBig := func(n int, seed byte) reflect.Value {
@@ -601,7 +657,7 @@ func rule(tier string, what string) string {
 	if tier == "thorough" {
 		d = "depth<=1 statically (320 generated types through the real generic Encoder[T]) and dynamically; depth 2 (256 expressions × 4 tags) and depth 3 (1024 expressions) dynamically"
 	}
-	return "probe struct types struct{c0; F τ `tag`; c1; c2} with canary fields, τ over 16 leaves {bool,int,int16,int32,int64,float32,float64,string,[]byte,time.Time,null.Int/Bool/Float/String/Time,Rec} and wrappers {*τ,[]τ,map[string]τ,struct{X τ}}: " + d + "; per type: every value sequence of length<=2 over the full value alphabet, every length-3 sequence over 3 representatives × {null,deflate,snappy} × block size {0,1,size of two records,65536} × every subset of flush positions, reader chunking rotating over {full,1-byte,data+EOF}; 66 multi-field record types (every arrangement of six *int64 / *string fields, and two mixed ones with slices, maps and nested pointers) with 4 value patterns in sequences of <=3 (allocation order inside one record); for the string and []byte leaves also records of 66–70 kB a 400-record block of >64 KiB (larger than the reader's read-ahead chunk) and a block of 9000 identical records (best-case compression ratio) under every codec; every record is compared twice: as deep-copied inside the callback, and as a plain struct copy kept by the caller until ReadFile has returned (banks left open); " + what + "; a case is one (type, sequence, configuration); non-trivial = encoding succeeded and the output reached the oracle"
+	return "probe struct types struct{c0; F τ `tag`; c1; c2} with canary fields, τ over 16 leaves {bool,int,int16,int32,int64,float32,float64,string,[]byte,time.Time,null.Int/Bool/Float/String/Time,Rec} and wrappers {*τ,[]τ,map[string]τ,struct{X τ}}: " + d + "; per type: every value sequence of length<=2 over the full value alphabet, every length-3 sequence over 3 representatives × {null,deflate,snappy} × block size {0,1,size of two records,65536} × every subset of flush positions, reader chunking rotating over {full,1-byte,data+EOF}; every length-3 sequence again with a flush after each record where the writer refuses the first write of one of the flushes once (nothing consumed) and the flush is retried; 66 multi-field record types (every arrangement of six *int64 / *string fields, and two mixed ones with slices, maps and nested pointers) with 4 value patterns in sequences of <=3 (allocation order inside one record); for the string and []byte leaves also records of 66–70 kB a 400-record block of >64 KiB (larger than the reader's read-ahead chunk) and a block of 9000 identical records (best-case compression ratio) under every codec; the file is read into T, into a fresh *T, and into a caller-owned *T already used by an earlier read that its callback abandoned at the last record; every record is compared twice: as deep-copied inside the callback, and as a plain struct copy kept by the caller until ReadFile has returned (banks left open); " + what + "; a case is one (type, sequence, configuration); non-trivial = encoding succeeded and the output reached the oracle"
 }
 
 func register(id string, w which, level, what string, assumptions []string) {
